@@ -612,6 +612,8 @@ func (c *fnCtx) zeroOf(t *fnType, at ast.Node) string {
 		return c.zeroVar(t.name).name
 	case "err":
 		return "ENil"
+	case "obj":
+		return c.objZero(t, at) // fn_stdobj.go: the zero value of a struct of the standard library, an argument
 	case "ptr":
 		return "(@None " + parenT(t.elem.coq()) + ")"
 	case "view":
